@@ -173,7 +173,7 @@ def oracle (obs : List (List String × String)) : Verdict :=
     let bad := (ops.find? (fun (_, a) => (parseObs a).isNone)).map (·.2) |>.getD "?"
     Verdict.fail ("bad-observation:" ++ ((bad.take 40).replace " " "_"))
   | some c =>
-    let fs := Spec.C38.failures c
+    let fs := Spec.C38.failures c ++ Spec.C38.chainFailures c
     let tags := dedupS (c.map (fun p => opTag p.1) ++ fs.map (fun s => "fail:" ++ s.name))
     let judged := c.any fun p => match p.1, p.2 with
       | .backup .., .snapshot .. => true
